@@ -229,6 +229,13 @@ ENVS = [{"USER": "alice", "LOGNAME": "alice", "HOME": "/home/alice",
          "LANG": "it_IT.ISO-8859-1", "HOSTNAME": "build-7",
          "SOURCE_DATE_EPOCH": "0", "PYTHONHASHSEED": "random",
          "COLUMNS": "72", "TERM": "dumb"},
+        # run from a hook of another repository, or by 'git rebase --exec'
+        # (git exports GIT_DIR to every hook), with settings of git
+        # injected through the environment
+        {"USER": "ci", "HOME": "/home/ci", "GIT_DIR": "/nonexistent/.git",
+         "GIT_WORK_TREE": "/tmp"},
+        {"USER": "dev", "GIT_CONFIG_COUNT": "1",
+         "GIT_CONFIG_KEY_0": "core.abbrev", "GIT_CONFIG_VALUE_0": "20"},
         {}]
 
 
